@@ -354,7 +354,7 @@ func genBuckets(r *hlib.Rng) *bucketCase {
 		}
 		keys[i] = k
 	}
-	c := &bucketCase{Kind: "buckets", Class: "buckets", MinSize: 1 + r.Intn(12), MaxNum: 1 + r.Intn(8)}
+	c := &bucketCase{Kind: "buckets", Class: "buckets", Keys: [][]int{}, MinSize: 1 + r.Intn(12), MaxNum: 1 + r.Intn(8)}
 	if r.Chance(1, 12) {
 		c.MinSize = 0
 		c.Class = "buckets-min0"
